@@ -146,6 +146,9 @@ func (e *Engine) propertyRoots(id string) []*ssa.Function {
 			if c := e.byFn[name]; c != nil && c.Inline && len(c.Props) == 0 {
 				continue // helper shared by several lemmas: verified where it is inlined
 			}
+			if strings.Contains(f.Name(), "_slow_") && !e.thorough {
+				continue // heavy lemma: thorough tier only
+			}
 			if !seen[f] {
 				seen[f] = true
 				out = append(out, f)
@@ -527,7 +530,7 @@ func (run *CheckRun) Report(e *Engine, writeBaseline, verbose bool) int {
 			if strings.Contains(n, "#safe:") || strings.Contains(n, "#frame") || strings.Contains(n, "#pre:") || strings.HasSuffix(n, ":frame") {
 				continue
 			}
-			if !have[n] && !(run.Tier != "thorough" && strings.Contains(n, "#slow_")) {
+			if !have[n] && !(run.Tier != "thorough" && strings.Contains(n, "slow_")) {
 				missing = append(missing, n)
 			}
 		}
@@ -648,6 +651,14 @@ func (run *CheckRun) Report(e *Engine, writeBaseline, verbose bool) int {
 		for _, r := range run.Results {
 			if r.Status == "discharged" {
 				raw[id] = append(raw[id], r.Name)
+			}
+		}
+		if run.Tier != "thorough" {
+			// obligations that exist in the thorough tier only stay in the alarm set
+			for n := range baseline[id] {
+				if strings.Contains(n, "slow_") {
+					raw[id] = append(raw[id], n)
+				}
 			}
 		}
 		sort.Strings(raw[id])
